@@ -421,7 +421,16 @@ func (t *loopTr) block(list []ast.Stmt, ind string, m blockMode, k func(ind stri
 			t.fail(s, "return arity")
 		}
 		var vals []string
+		retSlices := map[types.Object]bool{}
 		for i, r := range s.Results {
+			if id, ok := unparen(r).(*ast.Ident); ok && t.rets[i].isSlice() {
+				if o := t.info.Uses[id]; o != nil {
+					if retSlices[o] {
+						t.fail(r, "returning `%s` twice would make two results share a backing array", id.Name)
+					}
+					retSlices[o] = true
+				}
+			}
 			if id, ok := unparen(r).(*ast.Ident); ok {
 				if o := t.info.Uses[id]; o != nil && t.rets[i].isSlice() {
 					if _, isNil := o.(*types.Nil); isNil {
